@@ -183,17 +183,23 @@ func c16Docs(c *ctx, w *world, n int) []c16doc {
 		doc := "{" + ws + strings.Join(parts, ","+ws) + ws + "}" + []string{"", "\n", " \n\t ", "\r\n"}[c.rng.Intn(4)]
 		docs = append(docs, c16doc{unsigned: doc, signer: si, desc: fmt.Sprintf("%d fields, ws %q", len(parts)+1, ws)})
 	}
+	// shapes that every run covers: the last member is an object / empty object / array, written compactly (the text ends
+	// in "}}", "{}}" or "]}"), with and without trailing white space
+	for i, tail := range []string{`"meta":{"a":1}}`, `"meta":{}}`, `"deep":{"x":{"y":{}}}}`, `"arr":[{}]}`, `"s":"}}"}`, `"meta":{"a":1}}` + "\n\n"} {
+		si := i % 2
+		docs = append(docs, c16doc{unsigned: `{"camliVersion":1,"camliSigner":"` + w.signers[si].ref.String() + `",` + tail, signer: si, desc: "compact tail " + tail})
+	}
 	return docs
 }
 
 func runC16(c *ctx) {
-	c.rep.Rule = "JSON objects with camliVersion/camliSigner in any position, extra keys (unicode, nesting, a real camliSig key, escaped and \\u-escaped look-alike separators in string values), four whitespace styles, trailing white space, random signature times, two keys; " +
+	c.rep.Rule = "JSON objects with camliVersion/camliSigner in any position, extra keys (unicode, nesting, a real camliSig key, escaped and \\u-escaped look-alike separators in string values), four whitespace styles, trailing white space, documents whose text ends in nested closing braces / brackets, random signature times, two keys; " +
 		"each signed by the implementation, then: every position x {bit flip, 'A', '\"', insertion, deletion}, cut-offs, signer reference swapped to the other key, signature spliced from another document, payload re-closed before a second separator; " +
 		"all mutations are decided against the reference (accepted => payload bytes and signer unchanged), those around every separator, every 9th position and a random quarter of the rest go to the model (as mutations of the base document, applied inside Coq); non-trivial = distinct mutated document that still contains a separator"
 	w, err := newWorld()
 	must(err)
 	ctxb := context.Background()
-	docs := c16Docs(c, w, c.n(5, 60))
+	docs := c16Docs(c, w, c.n(3, 60))
 	var signedDocs []string
 	for di, d := range docs {
 		sigTime := time.Unix(1300000000+int64(c.rng.Intn(400000000)), 0)
